@@ -41,6 +41,12 @@ pub enum E {
     Cat(Box<E>, Box<E>),
     Fun(String, Vec<E>),
     Rng(Vec<usize>),
+    // the same with `$` markers: bit 0 = absolute column, bit 1 = absolute row (first corner),
+    // bits 2, 3 = the same for the second corner of a range; a one-cell `SumF` is printed as a
+    // bare reference argument (`SUM($B2)`), not as a range
+    RefF(usize, u8),
+    SumF(Vec<usize>, u8),
+    RngF(Vec<usize>, u8),
     Name(usize),
 }
 
@@ -149,6 +155,17 @@ fn enc_e(e: &E, out: &mut String) {
             out.push(',');
         }
         E::Ref(i) => out.push_str(&format!("R{i},")),
+        E::RefF(i, f) => out.push_str(&format!("R{i}~{f},")),
+        E::SumF(cs, f) => {
+            out.push('S');
+            out.push_str(&cs.iter().map(|c| c.to_string()).collect::<Vec<_>>().join("."));
+            out.push_str(&format!("~{f},"));
+        }
+        E::RngF(cs, f) => {
+            out.push('X');
+            out.push_str(&cs.iter().map(|c| c.to_string()).collect::<Vec<_>>().join("."));
+            out.push_str(&format!("~{f},"));
+        }
         E::Bin(op, l, r) => {
             out.push('B');
             out.push(*op);
@@ -219,7 +236,13 @@ fn dec_e(s: &[u8], pos: &mut usize) -> Option<E> {
     *pos += 1;
     Some(match k {
         b'L' => E::Lit(dec_v(take_until(s, pos, b','))?),
-        b'R' => E::Ref(take_until(s, pos, b',').parse().ok()?),
+        b'R' => {
+            let t = take_until(s, pos, b',');
+            match t.split_once('~') {
+                Some((i, f)) => E::RefF(i.parse().ok()?, f.parse().ok()?),
+                None => E::Ref(t.parse().ok()?),
+            }
+        }
         b'M' => E::Name(take_until(s, pos, b',').parse().ok()?),
         b'B' | b'C' => {
             let op = *s.get(*pos)? as char;
@@ -250,11 +273,17 @@ fn dec_e(s: &[u8], pos: &mut usize) -> Option<E> {
         }
         b'Q' => E::IsErr(Box::new(dec_e(s, pos)?)),
         b'S' | b'X' => {
-            let cs: Option<Vec<usize>> = take_until(s, pos, b',').split('.').map(|x| x.parse().ok()).collect();
-            if k == b'S' {
-                E::Sum(cs?)
-            } else {
-                E::Rng(cs?)
+            let t = take_until(s, pos, b',');
+            let (body, flags) = match t.split_once('~') {
+                Some((b, f)) => (b, Some(f.parse::<u8>().ok()?)),
+                None => (t, None),
+            };
+            let cs: Option<Vec<usize>> = body.split('.').map(|x| x.parse().ok()).collect();
+            match (k == b'S', flags) {
+                (true, None) => E::Sum(cs?),
+                (true, Some(f)) => E::SumF(cs?, f),
+                (false, None) => E::Rng(cs?),
+                (false, Some(f)) => E::RngF(cs?, f),
             }
         }
         b'G' => {
@@ -333,6 +362,33 @@ fn a1(wb: &Wb, from_sheet: u32, i: usize) -> String {
     }
 }
 
+fn cell_text(c: i32, r: i32, f: u8) -> String {
+    format!("{}{}{}{}", if f & 1 != 0 { "$" } else { "" }, col_name(c), if f & 2 != 0 { "$" } else { "" }, r)
+}
+
+fn a1f(wb: &Wb, from_sheet: u32, i: usize, f: u8) -> String {
+    let (s, r, c) = wb.cells[i].0;
+    if s == from_sheet {
+        cell_text(c, r, f)
+    } else {
+        format!("Sheet{}!{}", s + 1, cell_text(c, r, f))
+    }
+}
+
+fn range_text_f(wb: &Wb, from_sheet: u32, cs: &[usize], f: u8) -> String {
+    if cs.len() == 1 {
+        return a1f(wb, from_sheet, cs[0], f);
+    }
+    let first = wb.cells[cs[0]].0;
+    let last = wb.cells[*cs.last().unwrap()].0;
+    let body = format!("{}:{}", cell_text(first.2, first.1, f), cell_text(last.2, last.1, f >> 2));
+    if first.0 == from_sheet {
+        body
+    } else {
+        format!("Sheet{}!{}", first.0 + 1, body)
+    }
+}
+
 fn range_text(wb: &Wb, from_sheet: u32, cs: &[usize]) -> String {
     let first = wb.cells[cs[0]].0;
     let last = wb.cells[*cs.last().unwrap()].0;
@@ -358,6 +414,9 @@ pub fn render(wb: &Wb, sheet: u32, e: &E) -> String {
     match e {
         E::Lit(v) => lit_text(v),
         E::Ref(i) => a1(wb, sheet, *i),
+        E::RefF(i, f) => a1f(wb, sheet, *i, *f),
+        E::SumF(cs, f) => format!("SUM({})", range_text_f(wb, sheet, cs, *f)),
+        E::RngF(cs, f) => range_text_f(wb, sheet, cs, *f),
         E::Bin(op, l, r) => format!("({}{}{})", render(wb, sheet, l), op, render(wb, sheet, r)),
         E::Cmp(op, l, r) => format!("({}{}{})", render(wb, sheet, l), op, render(wb, sheet, r)),
         E::Cat(l, r) => format!("({}&{})", render(wb, sheet, l), render(wb, sheet, r)),
@@ -376,7 +435,7 @@ pub fn render(wb: &Wb, sheet: u32, e: &E) -> String {
 fn refs(e: &E, out: &mut Vec<usize>) {
     match e {
         E::Lit(_) => {}
-        E::Ref(i) | E::Name(i) => out.push(*i),
+        E::Ref(i) | E::RefF(i, _) | E::Name(i) => out.push(*i),
         E::Bin(_, l, r) | E::Cmp(_, l, r) | E::Cat(l, r) | E::IfErr(l, r) => {
             refs(l, out);
             refs(r, out);
@@ -387,7 +446,7 @@ fn refs(e: &E, out: &mut Vec<usize>) {
             refs(f, out);
         }
         E::IsErr(a) => refs(a, out),
-        E::Sum(cs) | E::Rng(cs) => out.extend(cs.iter().copied()),
+        E::Sum(cs) | E::Rng(cs) | E::SumF(cs, _) | E::RngF(cs, _) => out.extend(cs.iter().copied()),
         E::Fun(_, args) => args.iter().for_each(|a| refs(a, out)),
     }
 }
@@ -396,7 +455,7 @@ fn refs(e: &E, out: &mut Vec<usize>) {
 fn always(e: &E, out: &mut Vec<usize>) {
     match e {
         E::Lit(_) => {}
-        E::Ref(i) => out.push(*i),
+        E::Ref(i) | E::RefF(i, _) => out.push(*i),
         E::Bin(_, l, r) => {
             always(l, out);
             if matches!(**l, E::Lit(V::Num(_)) | E::Lit(V::Bool(_))) {
@@ -405,7 +464,7 @@ fn always(e: &E, out: &mut Vec<usize>) {
         }
         E::If(c, _, _) => always(c, out),
         E::IfErr(a, _) | E::IsErr(a) => always(a, out),
-        E::Sum(cs) => out.push(cs[0]),
+        E::Sum(cs) | E::SumF(cs, _) => out.push(cs[0]),
         _ => {}
     }
 }
@@ -625,6 +684,32 @@ fn eval_wb(req: &str) -> ImplOut {
         if let Some(v) = &vals[i] {
             set_value(&mut fr, p, v);
         }
+        // ---- an aggregate applied to ONE cell that holds a number has an unarguable value
+        let single = match e {
+            E::SumF(cs, _) | E::Sum(cs) if cs.len() == 1 => Some(("SUM", cs[0])),
+            E::Fun(name, args) if args.len() == 1 => match &args[0] {
+                E::Ref(j) | E::RefF(j, _) => Some((name.as_str(), *j)),
+                _ => None,
+            },
+            _ => None,
+        };
+        if let Some((name, j)) = single {
+            if let C::Plain(V::Num(x)) = &wb.cells[j].1 {
+                let want = match name {
+                    "SUM" | "MAX" | "MIN" => Some(format!("n{:016x}", x.to_bits())),
+                    "COUNT" => Some(format!("n{:016x}", 1f64.to_bits())),
+                    "AND" | "OR" => Some(if *x != 0.0 { "bT".to_string() } else { "bF".to_string() }),
+                    _ => None,
+                };
+                let got = vals[i].as_ref().map(canon_formula_value).unwrap_or_default();
+                if let Some(w) = want {
+                    if w != got {
+                        out = out.fail("c05:aggregate-of-single-reference", &format!(
+                            "cell {}!{}{} `{}` refers to one cell holding {} but shows {}", p.0 + 1, col_name(p.2), p.1, text, x, got));
+                    }
+                }
+            }
+        }
         // ---- (b) a formula that certainly depends on its own value shows #CIRC!
         let self_dep = !adj_always[i].is_empty() && reach(&adj_always, i)[i];
         if on_cycle_full(i) {
@@ -689,10 +774,70 @@ fn gen_lit(rng: &mut Rng) -> V {
     }
 }
 
+fn gen_ref(rng: &mut Rng, n: usize) -> E {
+    let i = rng.below(n as u64) as usize;
+    if rng.chance(1, 2) {
+        E::Ref(i)
+    } else {
+        E::RefF(i, rng.range(1, 3) as u8)
+    }
+}
+
+/// a dense block of numbers with formulas that apply an aggregate directly to ONE cell, the
+/// formula cell in line (same row or same column) with the cell it refers to or elsewhere, with
+/// every combination of `$` markers: a reference that is resolved as anything wider than the one
+/// cell picks up the neighbouring data or the formula cell itself
+pub fn gen_strip(rng: &mut Rng, rich: bool) -> Wb {
+    let rows = rng.range(3, 6) as i32;
+    let cols = rng.range(4, 8) as i32;
+    let sheet = 0u32;
+    let mut cells: Vec<((u32, i32, i32), C)> = vec![];
+    for r in 1..=rows {
+        for c in 1..=cols {
+            cells.push(((sheet, r, c), C::Plain(V::Num(rng.range(1, 9) as f64 * if rng.chance(1, 8) { 100.0 } else { 1.0 }))));
+        }
+    }
+    let idx = |r: i32, c: i32| ((r - 1) * cols + (c - 1)) as usize;
+    let n_formulas = rng.range(4, 10);
+    let mut used = std::collections::BTreeSet::new();
+    for k in 0..n_formulas {
+        let fr = rng.range(1, rows as i64) as i32;
+        let fc = rng.range(1, cols as i64) as i32;
+        if !used.insert((fr, fc)) {
+            continue;
+        }
+        // the referenced cell: same row (left or right), same column (above or below), or anywhere
+        let (rr, rc) = match rng.below(5) {
+            0 | 1 => (fr, rng.range(1, cols as i64) as i32),
+            2 | 3 => (rng.range(1, rows as i64) as i32, fc),
+            _ => (rng.range(1, rows as i64) as i32, rng.range(1, cols as i64) as i32),
+        };
+        if (rr, rc) == (fr, fc) || used.contains(&(rr, rc)) {
+            used.remove(&(fr, fc));
+            continue;
+        }
+        let flags = (k % 4) as u8;
+        let target = idx(rr, rc);
+        let core = if rich {
+            let name = ["SUM", "MAX", "MIN", "COUNT", "AND", "OR"][rng.below(6) as usize];
+            E::Fun(name.into(), vec![E::RefF(target, flags)])
+        } else {
+            E::SumF(vec![target], flags)
+        };
+        let e = match rng.below(4) {
+            0 => E::Bin('+', Box::new(core), Box::new(E::Lit(V::Num(1.0)))),
+            1 => E::IfErr(Box::new(core), Box::new(E::Lit(V::Num(-1.0)))),
+            _ => core,
+        };
+        cells[idx(fr, fc)].1 = C::Formula(e);
+    }
+    Wb { cells }
+}
+
 fn gen_expr(rng: &mut Rng, n: usize, rects: &[Vec<usize>], depth: u32, rich: bool) -> E {
     let leaf = depth == 0 || rng.chance(1, 4);
     if leaf {
-        return if rng.chance(3, 4) { E::Ref(rng.below(n as u64) as usize) } else { E::Lit(gen_lit(rng)) };
+        return if rng.chance(3, 4) { gen_ref(rng, n) } else { E::Lit(gen_lit(rng)) };
     }
     let sub = |rng: &mut Rng| Box::new(gen_expr(rng, n, rects, depth - 1, rich));
     // operands of binary operators stay inside the modelled fragment: `(a&b)+c`, `a+(b=c)` … are
@@ -709,8 +854,12 @@ fn gen_expr(rng: &mut Rng, n: usize, rects: &[Vec<usize>], depth: u32, rich: boo
         6 | 7 => E::IfErr(sub(rng), sub(rng)),
         8 => E::IsErr(sub(rng)),
         9 => {
-            if rects.is_empty() {
-                E::Ref(rng.below(n as u64) as usize)
+            // SUM of a bare single-cell reference (every `$` combination), of a range with `$`
+            // markers, or of a plain range
+            if rects.is_empty() || rng.chance(1, 3) {
+                E::SumF(vec![rng.below(n as u64) as usize], rng.below(4) as u8)
+            } else if rng.chance(1, 2) {
+                E::SumF(rects[rng.below(rects.len() as u64) as usize].clone(), rng.below(16) as u8)
             } else {
                 E::Sum(rects[rng.below(rects.len() as u64) as usize].clone())
             }
@@ -726,11 +875,15 @@ fn gen_expr(rng: &mut Rng, n: usize, rects: &[Vec<usize>], depth: u32, rich: boo
             E::Fun(name.into(), vec![*sub(rng)])
         }
         14 => {
-            if rects.is_empty() {
+            if rng.chance(1, 5) {
                 E::Fun("IFNA".into(), vec![*sub(rng), *sub(rng)])
+            } else if rects.is_empty() || rng.chance(1, 2) {
+                // an aggregate applied DIRECTLY to a single-cell reference, every `$` combination
+                let name = ["SUM", "MAX", "MIN", "COUNT", "AND", "OR"][rng.below(6) as usize];
+                E::Fun(name.into(), vec![E::RefF(rng.below(n as u64) as usize, rng.below(4) as u8)])
             } else {
                 let name = ["MAX", "MIN", "COUNT"][rng.below(3) as usize];
-                E::Fun(name.into(), vec![E::Rng(rects[rng.below(rects.len() as u64) as usize].clone())])
+                E::Fun(name.into(), vec![E::RngF(rects[rng.below(rects.len() as u64) as usize].clone(), rng.below(16) as u8)])
             }
         }
         _ => E::Name(rng.below(n as u64) as usize),
@@ -878,6 +1031,10 @@ fn gen_wb(ctx: &Ctx, sink: &mut dyn FnMut(String)) {
         let mut r = rng.fork();
         sink(format!("c05 wb {}", enc_wb(&gen_random(&mut r, false))));
     }
+    for _ in 0..count / 4 {
+        let mut r = rng.fork();
+        sink(format!("c05 wb {}", enc_wb(&gen_strip(&mut r, false))));
+    }
 }
 
 fn gen_rich(ctx: &Ctx, sink: &mut dyn FnMut(String)) {
@@ -886,6 +1043,10 @@ fn gen_rich(ctx: &Ctx, sink: &mut dyn FnMut(String)) {
     for _ in 0..count {
         let mut r = rng.fork();
         sink(format!("c05 rich {}", enc_wb(&gen_random(&mut r, true))));
+    }
+    for _ in 0..count / 3 {
+        let mut r = rng.fork();
+        sink(format!("c05 rich {}", enc_wb(&gen_strip(&mut r, true))));
     }
 }
 
